@@ -1,4 +1,6 @@
 import Driver.HdrCmd
+import Driver.CoreCmd
+import Driver.ReadCmd
 open Driver
 
 def dispatch (line : String) : String :=
@@ -6,6 +8,10 @@ def dispatch (line : String) : String :=
   | [] => "bad-op"
   | cmd :: rest =>
     match cmd with
+    | "core" => coreCmd rest
+    | "read" => readCmd rest
+    | "views" => viewsCmd rest
+    | "meta" => metaCmd rest
     | "hdr-rec" => hdrRec rest
     | "hdr-probe" => hdrProbe rest
     | "hdr-stat" => hdrStat rest
